@@ -37,6 +37,7 @@ class Walker:
         self.call_model = call_model  # f(walker, Call, store) -> abstract value or None
         self.variant_of = variant_of or {}   # pkey -> variant name (assumptions)
         self.max_paths = max_paths; self.max_visits = max_visits
+        self._depth = 0
         self.stop = set()             # blocks at which a walk ends (path.end = 'stop') when reached after the start
         self._sw = {}
         self.paths = []
@@ -152,6 +153,25 @@ class Walker:
         if c.is_(r'Option::<.*>::(copied|cloned|as_ref|as_deref)$', r'as std::clone::Clone>::clone$', r'as std::ops::Deref>::deref$'):
             if a0 is not UNKNOWN and a0[0] in ('agg', 'c'):
                 return a0
+        if (a0 is UNKNOWN or a0[0] == 'callres') and c.is_(r'Result::<.*>::map_err$') and len(c.args) == 2:
+            # unknown Result (e.g. what a user closure returned): both outcomes, the error one rewritten by the closure
+            e = self.apply_closure(self.opval(c.args[1], store), [UNKNOWN])
+            return ('fork', [('agg', 'std::result::Result', 'Ok', [UNKNOWN]), ('agg', 'std::result::Result', 'Err', [e])])
+        # Result/Option combinators on a known variant: the untouched side is passed through; the mapped side keeps its
+        # variant with an unknown payload (the closure is not evaluated)
+        if a0 is not UNKNOWN and a0[0] == 'agg' and a0[2] in ('Ok', 'Err', 'Some', 'None'):
+            if c.is_(r'Result::<.*>::map_err$'):
+                return a0 if a0[2] == 'Ok' else ('agg', a0[1], 'Err', [self.apply_closure(self.opval(c.args[1], store), list(a0[3]))] if len(c.args) == 2 else [UNKNOWN])
+            if c.is_(r'Result::<.*>::map$'):
+                return a0 if a0[2] == 'Err' else ('agg', a0[1], 'Ok', [UNKNOWN])
+            if c.is_(r'Result::<.*>::(ok)$'):
+                return ('agg', 'std::option::Option', 'Some', list(a0[3])) if a0[2] == 'Ok' else ('agg', 'std::option::Option', 'None', [])
+            if c.is_(r'Result::<.*>::(err)$'):
+                return ('agg', 'std::option::Option', 'Some', list(a0[3])) if a0[2] == 'Err' else ('agg', 'std::option::Option', 'None', [])
+            if c.is_(r'Option::<.*>::(ok_or|ok_or_else)$'):
+                return ('agg', 'std::result::Result', 'Ok', list(a0[3])) if a0[2] == 'Some' else ('agg', 'std::result::Result', 'Err', [UNKNOWN])
+            if c.is_(r'Option::<.*>::map$') and a0[2] == 'Some':
+                return ('agg', a0[1], 'Some', [UNKNOWN])
         # combinators that leave the empty/failed case as it is (the closure is not run)
         if c.is_(r'Option::<.*>::(map|and_then|filter|and|zip|cloned|copied|as_ref|as_mut|as_deref|take)$'):
             if a0 is not UNKNOWN and a0[0] == 'agg' and a0[2] == 'None':
@@ -168,6 +188,26 @@ class Walker:
             if a0 is not UNKNOWN and a0[0] == 'agg' and a0[2] == 'None' and re.search(r'Option::<bool>', c.full):
                 return ('c', False)
         return None
+
+    def apply_closure(self, cv, argvals):
+        """abstract result of calling a closure value with the given argument values: the single return value of a
+        sub-walk of the closure body, or UNKNOWN"""
+        facts = getattr(self.body, 'facts', None)
+        if cv is UNKNOWN or cv[0] != 'agg' or facts is None or cv[1] not in facts.bodies or self._depth > 2:
+            return UNKNOWN
+        clo = facts.bodies[cv[1]]
+        sub = Walker(clo, atom=None, call_model=None, max_paths=40, max_visits=1)
+        sub._depth = self._depth + 1
+        store = {1: cv}
+        for i, v in enumerate(argvals):
+            if v is not UNKNOWN:
+                store[2 + i] = v
+        try:
+            paths = [p for p in sub.run(0, store) if p.end == 'return']
+        except Broken:
+            return UNKNOWN
+        rets = {repr(p.ret) for p in paths}
+        return paths[0].ret if len(paths) >= 1 and len(rets) == 1 and paths[0].ret is not None else UNKNOWN
 
     def run(self, start=0, store=None):
         self.paths = []
@@ -225,6 +265,17 @@ class Walker:
                     v = self.std_model(c, store)
                 if v is None:
                     v = self.call_model(self, c, store) if self.call_model else None
+                if v is not None and v[0] == 'fork' and t.get('t') is not None and t.get('dest') and not t['dest'][1]:
+                    for alt in v[1]:
+                        p2 = Path(); p2.calls = list(path.calls); p2.callvals = list(path.callvals); p2.blocks = list(path.blocks)
+                        p2.forks = list(path.forks); p2.writes = list(path.writes); p2.assigns = list(path.assigns)
+                        st2 = dict(store)
+                        if alt is UNKNOWN: st2.pop(t['dest'][0], None)
+                        else: st2[t['dest'][0]] = alt
+                        self._go(t['t'], st2, p2, dict(visits))
+                    return
+                if v is not None and v[0] == 'fork':
+                    v = None
                 if t.get('dest') and not t['dest'][1]:
                     if v is None: store.pop(t['dest'][0], None)
                     else: store[t['dest'][0]] = v
